@@ -105,21 +105,16 @@ Definition peffs_of (r : pres hst) : option (list effect) :=
 Definition mbuf_of (r : mres hst) : option (list N) :=
   match r with MRet s _ _ => Some (m_buf s) | _ => None end.
 
-(* REFUTED for the handover path (HandshakeManager::receive_succeeded: push_unread + one
-   event_read on an empty socket): event_read returns on the 0-byte recv BEFORE read_message
-   is run, so a complete message handed over by the handshake is not dispatched until more
-   bytes arrive.  Witness: the 5 bytes of INTERESTED handed over, nothing follows: the machine
-   emits nothing and keeps a complete message in its buffer, decode emits INTERESTED. *)
-Theorem handover_complete_refuted :
-  exists (c : cfg) (pre : list N),
-    effs_of (run_real c (fun _ => 0) (fun _ => false) (h0 c) pre []) = Some [] /\
-    mbuf_of (run_real c (fun _ => 0) (fun _ => false) (h0 c) pre []) = Some pre /\
-    one_msg (c_role c) pre <> NeedMore /\
-    peffs_of (decode_real c (h0 c) pre) = Some [EMsg MInterested].
-Proof.
-  exists cfg_seed, interested_msg. repeat split; try (vm_compute; reflexivity).
-  vm_compute. discriminate.
-Qed.
+(* Handover path (HandshakeManager::receive_succeeded: push_unread + one event_read on an
+   empty socket).  Before commit 5c4764e event_read returned on the 0-byte recv BEFORE
+   read_message ran and this was `handover_complete_refuted` (witness: the 5 bytes of INTERESTED
+   handed over, nothing follows: nothing emitted, a complete message kept in the buffer).
+   With the repaired code the same witness is dispatched; the general theorem is
+   ProofsD.handover_dispatches_complete. *)
+Example handover_witness_dispatched :
+  effs_of (run_real cfg_seed (fun _ => 0) (fun _ => false) (h0 cfg_seed) interested_msg []) = Some [EMsg MInterested] /\
+  mbuf_of (run_real cfg_seed (fun _ => 0) (fun _ => false) (h0 cfg_seed) interested_msg []) = Some [].
+Proof. split; vm_compute; reflexivity. Qed.
 
 (* ... and as soon as one more segment arrives the whole buffer is decoded *)
 Example handover_then_more :
